@@ -13,7 +13,7 @@ from lv import core, drive, plans, planprog
 from lv.props import common
 
 ID = 'C14'
-BUDGET = {'quick': 8000, 'thorough': 160000}     # cases, 1/12 of them domain B
+BUDGET = {'quick': 6400, 'thorough': 160000}     # cases, 1/12 of them domain B
 B_SHARE = 12
 WALL = {'quick': 900, 'thorough': 5400}
 RULE = ('A: random compile-shaped workflow plans (<= 10 actions in a random DAG with '
